@@ -221,6 +221,12 @@ func buildBatchWorld(root string, days int) *batchWorld {
 		p7.Files = map[string]string{"managementout_conf.yml": "eventformats:\n  sowing:\n    eventname: sowing\n    enabled: true\n    additionalfields:\n      Crop: '%s'\n  harvest:\n    eventname: harvest\n    enabled: true\n    additionalfields:\n      Crop: '%s'\n      Residue: '%2.1f'\nseperatorrune: 32\n"}
 		p7.Write(root)
 	}
+	// p8: a perennial crop cut twice (the same crop at consecutive rotation entries), for the repetition family
+	{
+		p8 := mk("p8", "1", "F1", "001", "loam12", "AA", "")
+		p8.Rotation = append(p8.Rotation[:1], proj.CropEntry{Crop: "AA", Sow: isoAdd(start, 1), Harvest: isoAdd(start, 20), Rex: 100}, proj.CropEntry{Crop: "AA", Sow: isoAdd(start, 21), Harvest: isoAdd(start, 300), Rex: 100})
+		p8.Write(root)
+	}
 	// p3: pedotransfer function with texture fractions that do not add up to 100 %
 	p3 := mk("p3", "1", "F1", "001", "loam12", "SM", "")
 	p3.Soil.Hor = []proj.Horizon{{Tex: "SL3", Lower: 6, BD: 3, Corg: 1, CN: 10, PS: 45, Sand: 50, Silt: 20, Clay: 10}}
@@ -307,6 +313,8 @@ func buildBatchWorld(root string, days int) *batchWorld {
 		"Cv":  "project=p2 plotNr=1 fcode=WB1 parameter=par poligonID=W1",
 		// a project whose management-event configuration lists only sowing and harvest
 		"Cm": "project=p7 plotNr=1 fcode=W parameter=par poligonID=M7",
+		// a perennial crop cut inside the period
+		"Pa": "project=p8 plotNr=1 fcode=W parameter=par poligonID=P8",
 		// the same plot with groundwater from the time-series file
 		"As": "project=p1 plotNr=1 fcode=W parameter=par poligonID=S GroundWaterFrom=2",
 		// project p2 (scheduled irrigation, some events behind the end date) with automatic irrigation instead
